@@ -1,12 +1,78 @@
 import Tmcg.Driver
+import Tmcg.Model.Jl
 /-
   Line-protocol handlers of area "jl": the multi-party coin flip `JareckiLysyanskayaEDCF::Flip`
-  over the joint verifiable secret sharing `JareckiLysyanskayaRVSS` (property C17, n > 2).
-  Filled by the builder of that area.  Line formats: top of harness/drv_jl.cc.
+  over the joint verifiable secret sharing `JareckiLysyanskayaRVSS` (property C17, n ≥ 2 parties as
+  forked processes, harness/drv_jl.cc), one line per run:
+
+    jl.flip n t p q g h (STRONG WEAK DEV){n} => OUT{n}
+        OUT = ret|coin|[Qual]|alpha_i|hatalpha_i|[alpha_ji]|[hatalpha_ji]|[C_00..C_(n-1)t]
+              (coin `-` when Flip returned false), or `-` (the party died)
+  STRONG: the values of the party's `tmcg_mpz_srandomm(·, q)` draws, WEAK: its two protocol-level
+  `tmcg_mpz_wrandom_ui() % 2` draws, DEV: its deviation script (`-` = honest; items `S`, `Z,k`,
+  `O,j,k,d`, `I,j,k,d`, `A,g,k,d`, `D,g,k`, `N,g,k,v` joined by `;`).
 -/
 namespace Tmcg.DriverJl
 open Tmcg Tmcg.Driver
 
-def handlers : List (String × Handler) := []
+def pDevItem (d : Jl.Dev) (item : String) : Option Jl.Dev :=
+  match item.splitOn "," with
+  | ["S"] => some { d with sfb := true }
+  | ["Z", k] => do let k ← pNat k; some { d with silent := some k }
+  | ["O", j, k, v] => do
+    let j ← pNat j; let k ← pNat k; let v ← pInt v
+    some { d with po := d.po ++ [(j, k, v)] }
+  | ["I", j, k, v] => do
+    let j ← pNat j; let k ← pNat k; let v ← pInt v
+    some { d with pi := d.pi ++ [(j, k, v)] }
+  | ["A", g, k, v] => do
+    let g ← pNat g; let k ← pNat k; let v ← pInt v
+    some { d with ba := d.ba ++ [(g, k, v)] }
+  | ["D", g, k] => do let g ← pNat g; let k ← pNat k; some { d with bd := d.bd ++ [(g, k)] }
+  | ["N", g, k, v] => do
+    let g ← pNat g; let k ← pNat k; let v ← pInt v
+    some { d with bi := d.bi ++ [(g, k, v)] }
+  | _ => none
+
+def pDev (s : String) : Option Jl.Dev :=
+  if s = "-" then some {} else (s.splitOn ";").foldlM pDevItem {}
+
+/-- three tokens for each of the `n` parties -/
+def pParties : Nat → List String → Option (List Jl.PartyIn)
+  | 0, [] => some []
+  | 0, _ => none
+  | n + 1, s :: w :: d :: rest => do
+    let s ← pIntList s; let w ← pNatList w; let d ← pDev d
+    let r ← pParties n rest
+    some (⟨s, w, d⟩ :: r)
+  | _, _ => none
+
+def showB (b : Bool) : String := if b then "1" else "0"
+
+def showFlip (P : Jl.Party) : String :=
+  match P.err with
+  | some e => s!"exc:{e}"
+  | none =>
+    if P.fs.dead then "-"
+    else
+      let st := P.st
+      let flat : List Int := st.C.flatMap id
+      let tail := s!"{showList st.qual}|{st.alpha}|{st.halpha}|{showList st.s}|{showList st.sp}|{showList flat}"
+      match P.status with
+      | .run => "?"
+      | .ret false => s!"0|-|{tail}"
+      | .ret true => s!"1|{st.coin.getD (-1)}|{tail}"
+
+def hFlip : Handler
+  | n :: t :: p :: q :: g :: h :: rest => do
+    let n ← pNat n; let t ← pNat t
+    let p ← pInt p; let q ← pInt q; let g ← pInt g; let h ← pInt h
+    let ins ← pParties n rest
+    some (match Jl.mkGrp p q g h with
+      | .error e => toString e
+      | .ok G => " ".intercalate ((Jl.runFlip G n t ins).map showFlip))
+  | _ => none
+
+def handlers : List (String × Handler) := [("jl.flip", hFlip)]
 
 end Tmcg.DriverJl
